@@ -318,3 +318,45 @@ def nonempty_ext(facts, recv, inits=None):
                 if (op == "!=" and k == 0) or (op == ">" and k >= 0) or (op in (">=", "==") and k >= 1):
                     return True
     return False
+
+
+def len_lower_bound_ext(facts, base, inits=None):
+    """len_lower_bound, also through conditions held in named locals (`inits`, see lib/locals.py), with `X.len() != 0` / `0 != X.len()`
+    (=> at least 1) and a length held in a local (`let n = X.len(); if n < 2 { return .. }`)"""
+    best = len_lower_bound(facts, base)
+    b = _norm(base)
+    flip = {"<": ">", "<=": ">=", ">": "<", ">=": "<=", "==": "==", "!=": "!="}
+    neg = {"==": "!=", "!=": "==", "<": ">=", "<=": ">", ">": "<=", ">=": "<"}
+
+    def thru(e):
+        n = 0
+        while inits and is_node(e) and n < 4:
+            n += 1
+            if e[0] == "paren":
+                e = e[1]
+            elif e[0] == "path" and e[1] in inits:
+                e = inits[e[1]]
+            else:
+                break
+        return e
+    for c, pol in resolve_atoms(facts, inits):
+        if c[0] == "mcall" and c[2] == "is_empty" and _norm(thru(c[1])) == b and not pol:
+            best = max(best, 1)
+            continue
+        if c[0] != "bin" or c[1] not in flip:
+            continue
+        op, L, R = c[1], thru(c[2]), thru(c[3])
+        if _int(L) is not None and _int(R) is None:
+            L, R, op = R, L, flip[op]
+        n = _int(R)
+        if n is None or not (is_node(L) and L[0] == "mcall" and L[2] == "len" and _norm(L[1]) == b):
+            continue
+        if not pol:
+            op = neg[op]
+        if op in ("==", ">="):
+            best = max(best, n)
+        elif op == ">":
+            best = max(best, n + 1)
+        elif op == "!=" and n == 0:
+            best = max(best, 1)
+    return best
